@@ -2,8 +2,12 @@ package dfr
 
 import (
 	"errors"
+	"log"
+	"os"
 	"runtime"
+	"sort"
 	"strconv"
+	"strings"
 
 	"verif/sim/host"
 )
@@ -78,6 +82,11 @@ func recoverNamed(g *cur, id, j int) {
 	g.emit("d-recover-named " + strconv.Itoa(id) + " " + strconv.Itoa(j) + " " + Classify(r))
 }
 
+// mkDeferred returns the function a defer statement is applied to.
+func mkDeferred(g *cur, id, j int) func() {
+	return func() { g.emit("d-made " + strconv.Itoa(id) + " " + strconv.Itoa(j)) }
+}
+
 func deepRecover(g *cur) {
 	// recover called one call deeper than the deferred function: must not stop the panic
 	r := recover()
@@ -147,6 +156,24 @@ func fault(g *cur, id, kind int) {
 		host.BoomStr("hostboom" + strconv.Itoa(id))
 	case 13:
 		panic(host.Pt{X: id, Y: 3})
+	case 14:
+		// a panic raised inside a callback that a host function calls
+		xs := []int{2, 1, 3}
+		sort.Slice(xs, func(i, j int) bool { panic("boomcb" + strconv.Itoa(id)) })
+	case 15:
+		strings.Map(func(r rune) rune { panic(1500 + id) }, "ab")
+	case 16:
+		// process exit is turned into a panic by the restricted standard library;
+		// the natively compiled twin must not really exit
+		if host.Interpreted() {
+			os.Exit(3)
+		}
+		panic("os.Exit(3)")
+	case 17:
+		if host.Interpreted() {
+			log.Fatal("boomlf", id)
+		}
+		panic("boomlf" + strconv.Itoa(id))
 	}
 }
 
@@ -157,8 +184,18 @@ func node(g *cur, depth, id int) (res int) {
 	nd := g.next() % 4
 	counter := id * 100
 	for j := 0; j < nd; j++ {
-		kind := g.next() % 15
+		kind := g.next() % 17
 		switch kind {
+		case 15:
+			// the function value of a defer statement is fixed at the statement
+			defer mkDeferred(g, id, j)()
+		case 16:
+			fv := func() { g.emit("d-fv-first " + strconv.Itoa(id)) }
+			defer fv()
+			fv = func() { g.emit("d-fv-second " + strconv.Itoa(id)) }
+			if id < 0 {
+				fv()
+			}
 		case 11:
 			defer recoverNamed(g, id, j)
 		case 12:
@@ -245,10 +282,10 @@ func node(g *cur, depth, id int) (res int) {
 		b := node(g, depth+1, id*3+2)
 		res = a + b
 	case 3:
-		fault(g, id, g.next()%14)
+		fault(g, id, g.next()%18)
 		res = -1
 	case 6:
-		k := g.next() % 14
+		k := g.next() % 18
 		faultVia(g, id, k, g.next())
 		res = -1
 	case 4:
@@ -288,7 +325,7 @@ func node(g *cur, depth, id int) (res int) {
 		// panic in the middle of a function that already has results set
 		res = id
 		if g.next()%2 == 1 {
-			fault(g, id, g.next()%14)
+			fault(g, id, g.next()%18)
 		}
 	}
 	g.emit("leave " + strconv.Itoa(id) + " res=" + strconv.Itoa(res))
